@@ -139,6 +139,12 @@ struct St {
     /// recent genuine datagrams per origin node (for the genuine-prefix wrapper)
     recent: [Vec<Vec<u8>>; 2],
     anomalies: Vec<String>,
+    /// server connections created from a LATE COPY of a connection-creating Initial (retransmission / duplicate) that
+    /// arrived after the endpoint had forgotten the attempt's first server connection: handle -> connection index.
+    /// Inherent to QUIC (nothing is left to recognise the copy by); they belong to no planned connection, are never
+    /// attacked and their datagrams count for nothing in the ledger.
+    ghosts: [BTreeMap<usize, usize>; 2],
+    ghost_tx: std::collections::HashSet<u64>,
     fails: Vec<(String, String)>,
     hist: BTreeMap<String, u64>,
 }
@@ -284,13 +290,29 @@ impl St {
     fn on_tx(&mut self, node: usize, ch: usize, data: &[u8], lines: Vec<String>) {
         let peer = 1 - node;
         let hdr = parse_header(data, self.cid_len[peer]);
+        if self.ghosts[node].contains_key(&ch) {
+            self.ghost_tx.insert(dhash(data));
+            return;
+        }
         let k = match self.by_ch[node].get(&ch) {
             Some(k) => *k,
             None => {
                 // a server connection: its first datagram is addressed to the client's handshake CID
                 let Some((true, _, dcid, _)) = &hdr else { return };
                 let Some(k) = self.ks.iter().position(|k| k.ch[node].is_none() && k.gone[node].is_none() && k.issued[peer].get(&0).is_some_and(|i| i.cid == *dcid)) else {
-                    self.anomalies.push(format!("node {node} conn {ch}: first datagram addressed to {} which no open attempt uses", hx(dcid)));
+                    // the same attempt again?
+                    match self.ks.iter().position(|k| k.issued[peer].get(&0).is_some_and(|i| i.cid == *dcid)) {
+                        Some(kj) if self.ks[kj].gone[node].is_some() => {
+                            // its first server connection has drained and was forgotten by the endpoint (which keeps the
+                            // initial destination CID registered for exactly that long): a late copy of the client's
+                            // Initial is a new attempt to the endpoint
+                            self.ghosts[node].insert(ch, kj);
+                            self.ghost_tx.insert(dhash(data));
+                            self.count("ghost-server-connection-from-late-initial-copy", 1);
+                        }
+                        Some(kj) => self.anomalies.push(format!("node {node} conn {ch}: a SECOND connection answers the attempt of connection {kj} (client CID {}) while its first one (handle {:?}) is still known to the endpoint", hx(dcid), self.ks[kj].ch[node])),
+                        None => self.anomalies.push(format!("node {node} conn {ch}: first datagram addressed to {} which no attempt ever used", hx(dcid))),
+                    }
                     return;
                 };
                 self.ks[k].ch[node] = Some(ch);
@@ -339,6 +361,9 @@ impl St {
     /// a genuine datagram was handed to connection `ch` of `node`
     fn on_delivered(&mut self, node: usize, ch: usize, data: &[u8]) {
         let Some(&k) = self.by_ch[node].get(&ch) else { return };
+        if self.ghost_tx.contains(&dhash(data)) {
+            return;
+        }
         let Some(rec) = self.tx.get(&dhash(data)).cloned() else {
             // not built by any connection: the peer endpoint's own answer (stateless reset)
             self.ks[k].endpoint_dgram[node] = true;
@@ -582,6 +607,8 @@ pub fn resettok(seed: u64, out: &mut Outcome) {
         tx: HashMap::new(),
         recent: [Vec::new(), Vec::new()],
         anomalies: Vec::new(),
+        ghosts: [BTreeMap::new(), BTreeMap::new()],
+        ghost_tx: Default::default(),
         fails: Vec::new(),
         hist: BTreeMap::new(),
     }));
@@ -620,6 +647,11 @@ pub fn resettok(seed: u64, out: &mut Outcome) {
         // ---- deliveries since the last tick
         if let Some(rl) = sim.route_log.as_mut() {
             let recs: Vec<(usize, usize, Vec<u8>)> = rl[route_seen..].iter().filter(|r| r.genuine).filter_map(|r| if let Routed::Conn(ch) = r.to { Some((r.node, ch, r.data.clone())) } else { None }).collect();
+            if verbose {
+                for r in rl[route_seen..].iter().filter(|r| matches!(r.to, Routed::New)) {
+                    eprintln!("t={} node {}: a {} datagram of {} bytes from {} (first byte {:#04x}, header {:?}) was turned into a NEW connection attempt", r.at, r.node, if r.genuine { "GENUINE" } else { "forged" }, r.data.len(), r.from, r.data.first().copied().unwrap_or(0), parse_header(&r.data, 0).map(|(_, v, d, sc)| (v, hx(&d), hx(&sc))));
+                }
+            }
             rl.clear();
             route_seen = 0;
             for (node, ch, data) in recs {
@@ -627,6 +659,15 @@ pub fn resettok(seed: u64, out: &mut Outcome) {
             }
         }
         // ---- sides that drained (before anything can reuse their handles)
+        for node in 0..2 {
+            let drained: Vec<usize> = st.ghosts[node].keys().copied().filter(|c| sim.nodes[node].conns.get(c).map_or(true, |nc| nc.obs.drained_events > 0)).collect();
+            for c in drained {
+                st.ghosts[node].remove(&c);
+                if let Some(nc) = sim.nodes[node].conns.get_mut(&c) {
+                    nc.removed = true;
+                }
+            }
+        }
         for ki in 0..st.ks.len() {
             let k = &mut st.ks[ki];
             // sides that drained are no longer driven; the endpoint may reuse their handles
@@ -728,6 +769,10 @@ pub fn resettok(seed: u64, out: &mut Outcome) {
                     }
                 }
                 continue;
+            }
+            // a connection that ended by itself (e.g. the recorded CONNECTION_ID_LIMIT_ERROR finding) is over: judged at the end
+            if k.closed_at.is_none() && (0..2).any(|n| k.ch[n].is_some_and(|c| !sim.nodes[n].conns[&c].obs.lost.is_empty()) || k.gone[n].as_ref().is_some_and(|l| !l.is_empty())) {
+                k.closed_at = Some(sim.now);
             }
             if k.complete_at.is_none() && k.ch[SERVER].is_some() && k.w.complete() {
                 k.complete_at = Some(sim.now);
